@@ -145,6 +145,10 @@ type world struct {
 
 var theWorld *world
 
+// a process that has not reached its next yield point after this long is blocked outside the
+// lock-file protocol (flock); generous because the machine may be busy
+const c09Watchdog = 4 * time.Second
+
 // the hook has no argument to carry it
 
 func c09Hook(point string) {
@@ -188,9 +192,10 @@ func newWorld(dir string, roles []int, init int64) *world {
 		p := &vproc{id: i, role: r, ctx: newSchedCtx(), resume: make(chan struct{}), parked: make(chan string, 1), point: "start"}
 		w.procs = append(w.procs, p)
 		p.tx = newTx(dir)
-		// retry delay 0: the retry timer is due at once but is only delivered after the goroutine
-		// blocks in the select, so an already fired deadline wins deterministically
-		p.tx.UpdateWaitTimeout(30, 0)
+		// the retry delay must be long enough that the retry timer cannot be due when the select of
+		// the retry loop is reached with an already elapsed deadline (both ready = random choice);
+		// runs in which that still happens are detected (timerRace) and discarded
+		p.tx.UpdateWaitTimeout(30, 100*time.Microsecond)
 		go w.body(p)
 	}
 	return w
@@ -267,7 +272,7 @@ func (w *world) step(i int) bool {
 		p.point = pt
 		w.track(p, from)
 		return true
-	case <-time.After(400 * time.Millisecond):
+	case <-time.After(c09Watchdog):
 		p.point = "blocked"
 		return false
 	}
@@ -536,6 +541,10 @@ type c09Graph struct {
 	init      string
 	nondet    int
 	discarded int
+	aborted   int
+	outOfTime bool
+	// the last run thrown away because a process with an elapsed timeout went on retrying
+	lastDiscarded *c09Run
 }
 
 // shortest known path from `from` to a state with an untaken event (nil, false if none)
@@ -577,7 +586,7 @@ func (g *c09Graph) edges() (taken, total int) {
 	return
 }
 
-func c09Explore(dir string, roles []int, init int64, withExpire bool, maxRuns int, emit func(*c09Run)) *c09Graph {
+func c09Explore(dir string, roles []int, init int64, withExpire bool, maxRuns int, deadline time.Time, emit func(*c09Run)) *c09Graph {
 	g := &c09Graph{nodes: map[string]*c09Node{}}
 	for runs := 0; runs < maxRuns; runs++ {
 		if g.init != "" && g.nodes[g.init] != nil {
@@ -618,6 +627,16 @@ func c09Explore(dir string, roles []int, init int64, withExpire bool, maxRuns in
 			plan = plan[1:]
 			n := g.nodes[cur]
 			if !x.do(ev) {
+				// the process did not come back: a terminal node of its own
+				nk := x.run.Keys[len(x.run.Keys)-1]
+				if _, ok := n.next[ev]; !ok {
+					newEdges = append(newEdges, edge{n, ev})
+				}
+				n.next[ev] = nk
+				if g.nodes[nk] == nil {
+					g.nodes[nk] = &c09Node{next: map[c09Event]string{}}
+					newNodes = append(newNodes, nk)
+				}
 				break
 			}
 			nk := x.run.Keys[len(x.run.Keys)-1]
@@ -647,9 +666,23 @@ func c09Explore(dir string, roles []int, init int64, withExpire bool, maxRuns in
 				delete(g.nodes, k)
 			}
 			g.discarded++
+			g.lastDiscarded = run
+			if g.discarded > 12 && g.discarded*4 > runs {
+				break // not a rare timer race: elapsed timeouts are systematically not honoured
+			}
 			continue
 		}
 		emit(run)
+		if run.Aborted {
+			g.aborted++
+			if g.aborted >= 3 {
+				break // every further run costs a watchdog period; the emitted cases already disagree with the model
+			}
+		}
+		if time.Now().After(deadline) {
+			g.outOfTime = true
+			break
+		}
 	}
 	return g
 }
@@ -783,7 +816,7 @@ func showRun(run *c09Run, atomic bool) map[string]interface{} {
 		m["final_counter"] = last.Data
 	}
 	if run.Aborted {
-		m["aborted"] = "a process did not reach its next yield point within 400 ms (blocked outside the lock-file protocol, e.g. in flock)"
+		m["aborted"] = "a process did not reach its next yield point within 4 s (blocked outside the lock-file protocol, e.g. in flock)"
 	}
 	return m
 }
@@ -855,7 +888,7 @@ func c09RunSoak(n int, waitTimeout string, init int64) *c09Soak {
 	return s
 }
 
-func coqSoak(id int, s *c09Soak) string {
+func coqSoak(id int, s *c09Soak, atomic bool) string {
 	fin := "None"
 	if s.Final >= 0 {
 		fin = fmt.Sprintf("(Some %d)", s.Final)
@@ -864,7 +897,7 @@ func coqSoak(id int, s *c09Soak) string {
 	for i, e := range s.Exits {
 		ex[i] = strconv.Itoa(e)
 	}
-	return fmt.Sprintf("mkS %s %d %s [%s] %d", coqN(id), s.Init, fin, strings.Join(ex, ";"), len(s.Left))
+	return fmt.Sprintf("mkS %s %d %s [%s] %d %s", coqN(id), s.Init, fin, strings.Join(ex, ";"), len(s.Left), coqBool(atomic))
 }
 
 // ---- driver -------------------------------------------------------------------------------------------
@@ -973,14 +1006,14 @@ func runC09(seed int64, tier string, out string) {
 		graphCfgs = append(graphCfgs, c09Config{p, false})
 	}
 	expirePairs := [][]int{{roleR, roleW}, {roleW, roleW}, {roleW, roleWR}}
-	triples := [][]int{{roleR, roleR, roleW}, {roleR, roleW, roleW}}
+	triples := [][]int{{roleR, roleR, roleW}}
 	nRandom, randomProcs := 150, 3
-	soaks := [][2]interface{}{{6, "10"}, {6, "0.02"}}
+	soaks := [][2]interface{}{{6, "10"}, {8, "0.003"}}
 	if tier == "thorough" {
 		expirePairs = pairs
 		triples = [][]int{{roleR, roleR, roleW}, {roleR, roleW, roleW}, {roleW, roleW, roleW}, {roleR, roleRW, roleW}, {roleRW, roleRW, roleWR}, {roleR, roleR, roleR}, {roleRW, roleW, roleWR}}
 		nRandom, randomProcs = 3000, 5
-		soaks = [][2]interface{}{{8, "10"}, {8, "10"}, {16, "20"}, {8, "0.02"}, {8, "0.05"}, {12, "0.1"}, {8, "10"}, {8, "10"}}
+		soaks = [][2]interface{}{{8, "10"}, {8, "10"}, {16, "20"}, {8, "0.002"}, {8, "0.005"}, {12, "0.01"}, {16, "0.02"}, {8, "10"}, {8, "10"}}
 	}
 	for _, p := range expirePairs {
 		graphCfgs = append(graphCfgs, c09Config{p, true})
@@ -992,13 +1025,23 @@ func runC09(seed int64, tier string, out string) {
 		graphCfgs = append(graphCfgs, c09Config{[]int{roleR, roleR, roleW}, true}, c09Config{[]int{roleR, roleW, roleW}, true})
 	}
 	t0 := time.Now()
+	deadline := t0.Add(60 * time.Second)
+	if tier == "thorough" {
+		deadline = t0.Add(1200 * time.Second)
+	}
 	for _, c := range graphCfgs {
 		name := c09Name(c)
-		g := c09Explore(sc.Dir, c.roles, 5, c.expire, 4000, emit(name))
+		g := c09Explore(sc.Dir, c.roles, 5, c.expire, 20000, deadline, emit(name))
 		taken, total := g.edges()
 		meta.Notes = append(meta.Notes, fmt.Sprintf("%s: %d joint states, %d/%d enabled events executed, %d steering surprises, %d runs discarded (retry timer won against an elapsed deadline)", name, len(g.nodes), taken, total, g.nondet, g.discarded))
 		meta.Distribution["states:"+name] = len(g.nodes)
-		if taken != total {
+		if g.discarded > 12 && g.lastDiscarded != nil {
+			meta.Direct = append(meta.Direct, DirectViolation{Key: "timeout-not-honoured",
+				What: fmt.Sprintf("configuration %s: in %d runs a process whose wait timeout had elapsed while it was in the retry wait went on retrying instead of failing with the lock timeout (far more often than the select race between deadline and retry timer explains)", name, g.discarded),
+				Case: showRun(g.lastDiscarded, atomic)})
+		} else if g.aborted > 0 {
+			meta.Notes = append(meta.Notes, fmt.Sprintf("%s: exploration stopped after %d runs in which a process did not reach its next yield point", name, g.aborted))
+		} else if taken != total || g.outOfTime {
 			meta.Direct = append(meta.Direct, DirectViolation{Key: "exploration-incomplete", What: fmt.Sprintf("configuration %s: only %d of %d enabled events of the reachable joint states were executed", name, taken, total)})
 		}
 	}
@@ -1014,6 +1057,10 @@ func runC09(seed int64, tier string, out string) {
 			pe = 0.05
 		}
 		c09Random(r, sc.Dir, roles, int64(r.Intn(4)), pe, emit("random"))
+		if meta.Distribution["aborted"] >= 6 || time.Now().After(deadline.Add(30*time.Second)) {
+			meta.Notes = append(meta.Notes, fmt.Sprintf("random interleavings stopped after %d of %d (aborted runs / time)", k+1, nRandom))
+			break
+		}
 	}
 	w.flush()
 
@@ -1021,7 +1068,7 @@ func runC09(seed int64, tier string, out string) {
 	sid := 100000
 	for _, sk := range soaks {
 		s := c09RunSoak(sk[0].(int), sk[1].(string), int64(r.Intn(5)))
-		w.add("soaks:soak", coqSoak(sid, s))
+		w.add("soaks:soak", coqSoak(sid, s, atomic))
 		c := map[string]interface{}{"kind": "soak", "soak": s, "command": "csvq -r DIR -q --wait-timeout T 'UPDATE `t.csv` SET n = n + 1'  (N at once)"}
 		tags := []string{}
 		nok := 0
@@ -1030,7 +1077,7 @@ func runC09(seed int64, tier string, out string) {
 			if e == 0 {
 				nok++
 			}
-			if e == 2 && len(tags) == 0 {
+			if e == 2 && len(tags) == 0 && !atomic {
 				tags = append(tags, "commit-remove-rename-window")
 			}
 		}
@@ -1046,6 +1093,6 @@ func runC09(seed int64, tier string, out string) {
 	}
 	w.flush()
 	meta.Distinct = len(edgeSeen)
-	meta.Rule = "in-process: for every configuration (all unordered pairs of the roles R=SELECT, W=UPDATE+COMMIT, Wrb=UPDATE+ROLLBACK, RW=SELECT;UPDATE;COMMIT; pairs R/W, W/W, W/Wrb also with the wait timeout elapsing at any point of the acquisition; triples R/R/W and R/W/W; more in the thorough tier) the joint state graph (control files + creator, counter, yield point and outcome of every process) is explored on the real implementation until every enabled event (step of a live process, timeout of an acquiring one) of every reachable state has been executed at least once; plus random interleavings of 2..N processes with random roles. Each run is a schedule of yield-point steps, completed to the end; after every event the directory and the parked points are compared with Model.Lock.step. Distinct = distinct (configuration, observed joint state, event) triples executed. Real processes: N concurrent csvq binaries, counter must grow by exactly the number of exit-0 processes."
+	meta.Rule = "in-process: for every configuration (all unordered pairs of the roles R=SELECT, W=UPDATE+COMMIT, Wrb=UPDATE+ROLLBACK, RW=SELECT;UPDATE;COMMIT; pairs R/W, W/W, W/Wrb also with the wait timeout elapsing at any point of the acquisition; triple R/R/W; all pairs with timeouts, seven triples and two triples with timeouts in the thorough tier) the joint state graph (control files + creator, counter, yield point and outcome of every process) is explored on the real implementation until every enabled event (step of a live process, timeout of an acquiring one) of every reachable state has been executed at least once; plus random interleavings of 2..N processes with random roles. Each run is a schedule of yield-point steps, completed to the end; after every event the directory and the parked points are compared with Model.Lock.step. Distinct = distinct (configuration, observed joint state, event) triples executed. Real processes: N concurrent csvq binaries, counter must grow by exactly the number of exit-0 processes."
 	meta.write(out)
 }
